@@ -139,6 +139,7 @@ Section Force.
   Variables tnb tnk : str -> str.
   Variables accb acck : str -> str -> Prop.
   Variables rhb rhk whb whk : fhandle -> str -> nat -> Prop.
+  Variables hid anc : str -> Prop.
 
   (** what the entry found at [p] at the moment of the ForceBackup call has
       to look like: not a directory (the property is about non-directory
@@ -182,20 +183,20 @@ Section Force.
 
   Variable B0 : store.
 
-  Hypothesis HLb : base_laws base Vb Vk tnb accb rhb whb.
+  Hypothesis HLb : base_laws base Vb Vk tnb accb rhb whb hid anc.
   Hypothesis HLk : backup_laws backup Vb Vk tnk acck rhk whk.
   Hypothesis Hlinks : links_ok tnb tnk accb acck B0.
   Hypothesis Hsmall : all_small B0.
   Hypothesis HwfB0 : swf B0.
 
-  Let Lb : api_laws base Vb Vk tnb accb rhb whb := HLb.
-  Let Lk : api_laws backup Vk Vb tnk acck rhk whk := HLk.
+  Let Lb : api_laws base Vb Vk tnb accb rhb whb hid anc := HLb.
+  Let Lk : api_laws backup Vk Vb tnk acck rhk whk nohid nohid := HLk.
 
   Lemma Vb_infos : forall w i, Vb (with_infos w i) = Vb w.
-  Proof. exact (law_infos_indep _ _ _ _ _ _ _ HLb). Qed.
+  Proof. exact (law_infos_indep _ _ _ _ _ _ _ _ _ HLb). Qed.
 
   Lemma Vk_infos : forall w i, Vk (with_infos w i) = Vk w.
-  Proof. exact (law_infos_indep _ _ _ _ _ _ _ HLk). Qed.
+  Proof. exact (law_infos_indep _ _ _ _ _ _ _ _ _ HLk). Qed.
 
   (** ** what is known about the original at [p] *)
 
@@ -348,7 +349,7 @@ Section Force.
         - simpl in Hc. rewrite (eqv_kind _ _ Hc) in Ek. discriminate Ek.
         - simpl in Hc. rewrite (eqv_kind _ _ Hc) in Ek. discriminate Ek. }
       pose proof (swf_lookup_snolinkpar _ _ _ (inv_wf_k _ _ _ _ HI) Hnk) as Hnlp.
-      destruct (law_lstat_some _ _ _ _ _ _ _ Lk w p nk (inv_quiet _ _ _ _ HI) (inv_wf_k _ _ _ _ HI) Hnlp Hnk)
+      destruct (law_lstat_some _ _ _ _ _ _ _ _ _ Lk w p nk (inv_quiet _ _ _ _ HI) (inv_wf_k _ _ _ _ HI) Hnlp Hnk)
         as (fi & (w1 & Hrun1 & HV1 & Hsr1) & Himk & _).
       pose proof (same_all_backup Vb Vk w w1 HV1 Hsr1) as Hsa1.
       pose proof (Inv_transfer Vb Vk B0 w w1 HI Hsa1) as HI1.
@@ -362,8 +363,8 @@ Section Force.
         destruct (swf_lookup_sdirect _ _ _ (inv_wf_k _ _ _ _ HI1) Hq) as [_ Hf].
         rewrite List.Forall_forall in Hf. destruct (Hf p Hin) as [m Hm].
         rewrite Hm in Hnk1. injection Hnk1 as <-. apply Hknk. reflexivity. }
-      destruct (law_remove_leaf _ _ _ _ _ _ _ Lk w1 p nk (inv_quiet _ _ _ _ HI1) (inv_wf_k _ _ _ _ HI1)
-                  (swf_lookup_snolinkpar _ _ _ (inv_wf_k _ _ _ _ HI1) Hnk1) Hnk1 Hnc Hne)
+      destruct (law_remove_leaf _ _ _ _ _ _ _ _ _ Lk w1 p nk (inv_quiet _ _ _ _ HI1) (inv_wf_k _ _ _ _ HI1)
+                  (swf_lookup_snolinkpar _ _ _ (inv_wf_k _ _ _ _ HI1) Hnk1) Hnk1 Hnc Hne (not_nohid _))
         as (s' & (w2 & Hrun2 & HV2 & Hsr2) & Hnone & Heqv & Hwf').
       pose proof Hsr2 as (HVb2 & Hi2 & Hc2 & Hf2).
       set (w3 := with_infos w2 (base.delete p (w_infos w2))).
@@ -495,7 +496,7 @@ Section Force.
     intros HI Hnlp Hne Hcur Hfi Hpar0.
     destruct (rebase_ok w p HI Hne Hcur Hfi Hpar0) as (Hwf' & Hlinks' & Hsmall').
     (* resolve *)
-    destruct (real_path_resolved_spec base Vb Vk tnb accb rhb whb Lb w p
+    destruct (real_path_resolved_spec base Vb Vk tnb accb rhb whb hid anc Lb w p
                 (inv_quiet _ _ _ _ HI) (inv_wf_b _ _ _ _ HI) Hnlp) as (w1 & Hrun1 & HVb1 & Hsr1).
     pose proof (same_all_base Vb Vk w w1 HVb1 Hsr1) as Hsa1.
     pose proof (Inv_transfer Vb Vk B0 w w1 HI Hsa1) as HI1.
@@ -507,7 +508,7 @@ Section Force.
     rewrite HVb1 in HI2. rewrite Hi1 in Hi2.
     (* back up again *)
     assert (Hnlp2 : snolinkpar (Vb w2) p) by (rewrite HVb2, HVb1; exact Hnlp).
-    destruct (try_backup_specS base backup Vb Vk tnb tnk accb acck rhb rhk whb whk
+    destruct (try_backup_specS base backup Vb Vk tnb tnk accb acck rhb rhk whb whk hid anc
                 (rebase B0 p (Vb w !! p)) HLb HLk Hlinks' Hsmall' Hwf' w2 p HI2 Hnlp2)
       as (r & w' & Hrun3 & Hnh & HI' & (HVb' & Hm & Hd) & Htr & Hok).
     assert (Hkeep : forall q, q <> p -> w_infos w !! q <> None -> w_infos w' !! q = w_infos w !! q).
@@ -620,14 +621,14 @@ Section Force.
                     (r = MOk tt -> tracked w' p /\ Forall (tracked w') (ancestors p)).
   Proof.
     intros HI Hnlp Hi.
-    destruct (real_path_resolved_spec base Vb Vk tnb accb rhb whb Lb w p
+    destruct (real_path_resolved_spec base Vb Vk tnb accb rhb whb hid anc Lb w p
                 (inv_quiet _ _ _ _ HI) (inv_wf_b _ _ _ _ HI) Hnlp) as (w1 & Hrun1 & HVb1 & Hsr1).
     pose proof (same_all_base Vb Vk w w1 HVb1 Hsr1) as Hsa1.
     pose proof (Inv_transfer Vb Vk B0 w w1 HI Hsa1) as HI1.
     pose proof Hsa1 as (_ & HVk1 & Hi1 & _ & _).
     assert (Hun1 : w_infos w1 !! p = None) by (rewrite Hi1; exact Hi).
     assert (Hnlp1 : snolinkpar (Vb w1) p) by (rewrite HVb1; exact Hnlp).
-    destruct (try_backup_specS base backup Vb Vk tnb tnk accb acck rhb rhk whb whk
+    destruct (try_backup_specS base backup Vb Vk tnb tnk accb acck rhb rhk whb whk hid anc
                 B0 HLb HLk Hlinks Hsmall HwfB0 w1 p HI1 Hnlp1)
       as (r & w' & Hrun3 & Hnh & HI' & (HVb' & Hm & Hd) & Htr & _).
     exists r, w', w1. split; [| split; [exact Hsa1 | split; [exact Hrun3 | split; [exact Hnh |]]]].
@@ -643,6 +644,22 @@ Section Force.
   (** ** the property: Rollback after ForceBackup *)
 
   Hypothesis HLb2 : base_laws2 base Vb Vk tnb accb rhb whb.
+  Hypothesis Hloc : loc_ok hid anc B0.
+
+  (** the new baseline shows nothing hidden, and the ancestors of the hidden
+      locations as directories: the current base view does *)
+  Lemma loc_ok_rebase (w : world) (p : str) :
+    Inv Vb Vk B0 w -> loc_ok hid anc (rebase B0 p (Vb w !! p)).
+  Proof.
+    intros HI. split.
+    - intros q Hh. destruct (str_eq_dec q p) as [-> | Hqp].
+      + rewrite rebase_at. exact (law_hid_absent _ _ _ _ _ _ _ _ _ Lb w p Hh).
+      + rewrite rebase_ne by exact Hqp. exact (proj1 Hloc q Hh).
+    - intros q Ha. destruct (str_eq_dec q p) as [-> | Hqp].
+      + destruct (law_anc_dir _ _ _ _ _ _ _ _ _ Lb w p Ha (inv_wf_b _ _ _ _ HI)) as [m Hm].
+        exists m. rewrite rebase_at. exact Hm.
+      + apply sdir_rebase; [exact Hqp | exact (proj2 Hloc q Ha)].
+  Qed.
 
   Lemma c17_specS (w : world) (p : str) :
     Inv Vb Vk B0 w -> snolinkpar (Vb w) p -> p <> s_root ->
@@ -662,10 +679,10 @@ Section Force.
     destruct (force_backup_specS w p HI Hnlp Hne Hcur Hfi Hpar0)
       as (r' & w1' & Hrun' & _ & _ & HI1 & _ & _ & _ & _ & Hrec).
     rewrite Hrun in Hrun'. injection Hrun' as <- <-.
-    pose proof (good_run_inv base backup Vb Vk tnb tnk accb acck rhb rhk whb whk _
+    pose proof (good_run_inv base backup Vb Vk tnb tnk accb acck rhb rhk whb whk hid anc _
                   HLb HLb2 HLk Hlinks' Hsmall' Hwf' w1 ops w2 Hgood HI1) as HI2.
-    destruct (rollback_spec base backup Vb Vk tnb tnk accb acck rhb rhk whb whk _
-                HLb HLk Hlinks' Hsmall' Hwf' w2 HI2) as (w3 & Hrb & _ & Hb & Hk & Hi).
+    destruct (rollback_spec base backup Vb Vk tnb tnk accb acck rhb rhk whb whk hid anc _
+                HLb HLk Hlinks' Hsmall' Hwf' (loc_ok_rebase w p HI) w2 HI2) as (w3 & Hrb & _ & Hb & Hk & Hi).
     assert (Hp : sonode_eqv (Vb w3 !! p) (Vb w !! p)).
     { pose proof (Hb p Hne) as E. rewrite rebase_at in E. exact E. }
     exists w3. split; [exact Hrb |]. split; [exact Hp |].
@@ -685,8 +702,8 @@ End Force.
 
 Definition force_backup_stmt (base backup : fsapi) (Vb Vk : world -> store)
            (tnb tnk : str -> str) (accb acck : str -> str -> Prop)
-           (rhb rhk whb whk : fhandle -> str -> nat -> Prop) (B0 : store) : Prop :=
-  base_laws base Vb Vk tnb accb rhb whb -> backup_laws backup Vb Vk tnk acck rhk whk ->
+           (rhb rhk whb whk : fhandle -> str -> nat -> Prop) (hid anc : str -> Prop) (B0 : store) : Prop :=
+  base_laws base Vb Vk tnb accb rhb whb hid anc -> backup_laws backup Vb Vk tnk acck rhk whk ->
   links_ok tnb tnk accb acck B0 -> all_small B0 -> swf B0 ->
   forall w p, Inv Vb Vk B0 w -> snolinkpar (Vb w) p -> p <> s_root ->
   entry_ok tnb tnk accb acck p (Vb w !! p) -> orig_not_dir_cond w p ->
@@ -709,16 +726,16 @@ Definition force_backup_stmt (base backup : fsapi) (Vb Vk : world -> store)
                 w_infos w' !! p = Some None /\ Vb w !! p = None).
 
 Theorem force_backup_spec :
-  forall base backup Vb Vk tnb tnk accb acck rhb rhk whb whk B0,
-  force_backup_stmt base backup Vb Vk tnb tnk accb acck rhb rhk whb whk B0.
+  forall base backup Vb Vk tnb tnk accb acck rhb rhk whb whk hid anc B0,
+  force_backup_stmt base backup Vb Vk tnb tnk accb acck rhb rhk whb whk hid anc B0.
 Proof.
-  intros base backup Vb Vk tnb tnk accb acck rhb rhk whb whk B0.
+  intros base backup Vb Vk tnb tnk accb acck rhb rhk whb whk hid anc B0.
   unfold force_backup_stmt. intros HLb HLk Hlinks Hsmall HwfB0 w p HI Hnlp Hne Hcur Hfi Hpar0.
   cbv zeta.
   destruct (rebase_ok Vb Vk tnb tnk accb acck B0 Hlinks Hsmall HwfB0 w p HI Hne Hcur Hfi Hpar0)
     as (Hwf' & Hlinks' & Hsmall').
   split; [exact Hwf' | split; [exact Hlinks' | split; [exact Hsmall' |]]].
-  destruct (force_backup_specS base backup Vb Vk tnb tnk accb acck rhb rhk whb whk B0
+  destruct (force_backup_specS base backup Vb Vk tnb tnk accb acck rhb rhk whb whk hid anc B0
               HLb HLk Hlinks Hsmall HwfB0 w p HI Hnlp Hne Hcur Hfi Hpar0)
     as (r & w' & Hrun & Hnh & HVb & HI' & Hkeep & Hnew & Htr & Hok & Hrec).
   exists r, w'. split; [exact Hrun |]. split; [exact Hnh |]. split; [exact HVb |].
@@ -731,8 +748,8 @@ Qed.
 (** ForceBackup of an untracked path *)
 Definition force_backup_untracked_stmt (base backup : fsapi) (Vb Vk : world -> store)
            (tnb tnk : str -> str) (accb acck : str -> str -> Prop)
-           (rhb rhk whb whk : fhandle -> str -> nat -> Prop) (B0 : store) : Prop :=
-  base_laws base Vb Vk tnb accb rhb whb -> backup_laws backup Vb Vk tnk acck rhk whk ->
+           (rhb rhk whb whk : fhandle -> str -> nat -> Prop) (hid anc : str -> Prop) (B0 : store) : Prop :=
+  base_laws base Vb Vk tnb accb rhb whb hid anc -> backup_laws backup Vb Vk tnk acck rhk whk ->
   links_ok tnb tnk accb acck B0 -> all_small B0 -> swf B0 ->
   forall w p, Inv Vb Vk B0 w -> snolinkpar (Vb w) p -> w_infos w !! p = None ->
   exists r w' w1, b_force_backup base backup p w = (r, w') /\
@@ -742,22 +759,22 @@ Definition force_backup_untracked_stmt (base backup : fsapi) (Vb Vk : world -> s
                   (r = MOk tt -> tracked w' p /\ Forall (tracked w') (ancestors p)).
 
 Theorem force_backup_untracked_spec :
-  forall base backup Vb Vk tnb tnk accb acck rhb rhk whb whk B0,
-  force_backup_untracked_stmt base backup Vb Vk tnb tnk accb acck rhb rhk whb whk B0.
+  forall base backup Vb Vk tnb tnk accb acck rhb rhk whb whk hid anc B0,
+  force_backup_untracked_stmt base backup Vb Vk tnb tnk accb acck rhb rhk whb whk hid anc B0.
 Proof.
-  intros base backup Vb Vk tnb tnk accb acck rhb rhk whb whk B0.
+  intros base backup Vb Vk tnb tnk accb acck rhb rhk whb whk hid anc B0.
   unfold force_backup_untracked_stmt. intros HLb HLk Hlinks Hsmall HwfB0 w p HI Hnlp Hi.
-  exact (force_backup_untracked_specS base backup Vb Vk tnb tnk accb acck rhb rhk whb whk B0
+  exact (force_backup_untracked_specS base backup Vb Vk tnb tnk accb acck rhb rhk whb whk hid anc B0
            HLb HLk Hlinks Hsmall HwfB0 w p HI Hnlp Hi).
 Qed.
 
 (** C17: ForceBackup, then covered operations, then Rollback *)
 Definition c17_stmt (base backup : fsapi) (Vb Vk : world -> store)
            (tnb tnk : str -> str) (accb acck : str -> str -> Prop)
-           (rhb rhk whb whk : fhandle -> str -> nat -> Prop) (B0 : store) : Prop :=
-  base_laws base Vb Vk tnb accb rhb whb -> base_laws2 base Vb Vk tnb accb rhb whb ->
+           (rhb rhk whb whk : fhandle -> str -> nat -> Prop) (hid anc : str -> Prop) (B0 : store) : Prop :=
+  base_laws base Vb Vk tnb accb rhb whb hid anc -> base_laws2 base Vb Vk tnb accb rhb whb ->
   backup_laws backup Vb Vk tnk acck rhk whk ->
-  links_ok tnb tnk accb acck B0 -> all_small B0 -> swf B0 ->
+  links_ok tnb tnk accb acck B0 -> all_small B0 -> swf B0 -> loc_ok hid anc B0 ->
   forall w p, Inv Vb Vk B0 w -> snolinkpar (Vb w) p -> p <> s_root ->
   entry_ok tnb tnk accb acck p (Vb w !! p) -> orig_not_dir_cond w p ->
   parents_original Vb B0 w p ->
@@ -771,21 +788,21 @@ Definition c17_stmt (base backup : fsapi) (Vb Vk : world -> store)
                 sonode_eqv (Vb w3 !! p) (B0 !! p)).
 
 Theorem c17_spec :
-  forall base backup Vb Vk tnb tnk accb acck rhb rhk whb whk B0,
-  c17_stmt base backup Vb Vk tnb tnk accb acck rhb rhk whb whk B0.
+  forall base backup Vb Vk tnb tnk accb acck rhb rhk whb whk hid anc B0,
+  c17_stmt base backup Vb Vk tnb tnk accb acck rhb rhk whb whk hid anc B0.
 Proof.
-  intros base backup Vb Vk tnb tnk accb acck rhb rhk whb whk B0.
-  unfold c17_stmt. intros HLb HLb2 HLk Hlinks Hsmall HwfB0 w p HI Hnlp Hne Hcur Hfi Hpar0.
-  exact (c17_specS base backup Vb Vk tnb tnk accb acck rhb rhk whb whk B0
-           HLb HLk Hlinks Hsmall HwfB0 HLb2 w p HI Hnlp Hne Hcur Hfi Hpar0).
+  intros base backup Vb Vk tnb tnk accb acck rhb rhk whb whk hid anc B0.
+  unfold c17_stmt. intros HLb HLb2 HLk Hlinks Hsmall HwfB0 Hloc w p HI Hnlp Hne Hcur Hfi Hpar0.
+  exact (c17_specS base backup Vb Vk tnb tnk accb acck rhb rhk whb whk hid anc B0
+           HLb HLk Hlinks Hsmall HwfB0 HLb2 Hloc w p HI Hnlp Hne Hcur Hfi Hpar0).
 Qed.
 
 (** the same for a whole transaction: initial state, covered operations,
     ForceBackup(p), covered operations, Rollback *)
 Definition c17_initial_stmt (base backup : fsapi) (Vb Vk : world -> store)
            (tnb tnk : str -> str) (accb acck : str -> str -> Prop)
-           (rhb rhk whb whk : fhandle -> str -> nat -> Prop) (B0 : store) : Prop :=
-  base_laws base Vb Vk tnb accb rhb whb -> base_laws2 base Vb Vk tnb accb rhb whb ->
+           (rhb rhk whb whk : fhandle -> str -> nat -> Prop) (hid anc : str -> Prop) (B0 : store) : Prop :=
+  base_laws base Vb Vk tnb accb rhb whb hid anc -> base_laws2 base Vb Vk tnb accb rhb whb ->
   backup_laws backup Vb Vk tnk acck rhk whk -> all_small B0 ->
   forall w0 ops1 w p, initial Vb Vk tnb tnk accb acck B0 w0 -> good_run base backup Vb w0 ops1 w ->
   snolinkpar (Vb w) p -> p <> s_root ->
@@ -801,19 +818,21 @@ Definition c17_initial_stmt (base backup : fsapi) (Vb Vk : world -> store)
                 sonode_eqv (Vb w3 !! p) (Vb w0 !! p)).
 
 Theorem c17_initial_spec :
-  forall base backup Vb Vk tnb tnk accb acck rhb rhk whb whk B0,
-  c17_initial_stmt base backup Vb Vk tnb tnk accb acck rhb rhk whb whk B0.
+  forall base backup Vb Vk tnb tnk accb acck rhb rhk whb whk hid anc B0,
+  c17_initial_stmt base backup Vb Vk tnb tnk accb acck rhb rhk whb whk hid anc B0.
 Proof.
-  intros base backup Vb Vk tnb tnk accb acck rhb rhk whb whk B0.
+  intros base backup Vb Vk tnb tnk accb acck rhb rhk whb whk hid anc B0.
   unfold c17_initial_stmt.
   intros HLb HLb2 HLk Hsmall w0 ops1 w p Hinit Hrun1 Hnlp Hne Hcur Hfi Hpar0.
   pose proof Hinit as (_ & _ & HV0 & HwfB & Hlinks & _ & _).
   pose proof (initial_inv_spec Vb Vk tnb tnk accb acck B0 w0 Hinit) as HI0.
-  pose proof (good_run_inv base backup Vb Vk tnb tnk accb acck rhb rhk whb whk B0
+  pose proof (good_run_inv base backup Vb Vk tnb tnk accb acck rhb rhk whb whk hid anc B0
                 HLb HLb2 HLk Hlinks Hsmall HwfB w0 ops1 w Hrun1 HI0) as HI.
   rewrite HV0.
-  exact (c17_specS base backup Vb Vk tnb tnk accb acck rhb rhk whb whk B0
-           HLb HLk Hlinks Hsmall HwfB HLb2 w p HI Hnlp Hne Hcur Hfi Hpar0).
+  exact (c17_specS base backup Vb Vk tnb tnk accb acck rhb rhk whb whk hid anc B0
+           HLb HLk Hlinks Hsmall HwfB HLb2
+           (initial_loc_ok base Vb Vk tnb tnk accb acck rhb whb hid anc B0 HLb w0 Hinit)
+           w p HI Hnlp Hne Hcur Hfi Hpar0).
 Qed.
 
 (** a ForceBackup that failed: the transaction stays intact; the original of
@@ -821,10 +840,10 @@ Qed.
     existing - the old copy is dropped before the new one is attempted *)
 Definition c17_failed_stmt (base backup : fsapi) (Vb Vk : world -> store)
            (tnb tnk : str -> str) (accb acck : str -> str -> Prop)
-           (rhb rhk whb whk : fhandle -> str -> nat -> Prop) (B0 : store) : Prop :=
-  base_laws base Vb Vk tnb accb rhb whb -> base_laws2 base Vb Vk tnb accb rhb whb ->
+           (rhb rhk whb whk : fhandle -> str -> nat -> Prop) (hid anc : str -> Prop) (B0 : store) : Prop :=
+  base_laws base Vb Vk tnb accb rhb whb hid anc -> base_laws2 base Vb Vk tnb accb rhb whb ->
   backup_laws backup Vb Vk tnk acck rhk whk ->
-  links_ok tnb tnk accb acck B0 -> all_small B0 -> swf B0 ->
+  links_ok tnb tnk accb acck B0 -> all_small B0 -> swf B0 -> loc_ok hid anc B0 ->
   forall w p, Inv Vb Vk B0 w -> snolinkpar (Vb w) p -> p <> s_root ->
   entry_ok tnb tnk accb acck p (Vb w !! p) -> orig_not_dir_cond w p ->
   parents_original Vb B0 w p ->
@@ -837,14 +856,14 @@ Definition c17_failed_stmt (base backup : fsapi) (Vb Vk : world -> store)
                (forall q, q <> s_root -> Vk w3 !! q = None) /\ w_infos w3 = ∅.
 
 Theorem c17_failed_spec :
-  forall base backup Vb Vk tnb tnk accb acck rhb rhk whb whk B0,
-  c17_failed_stmt base backup Vb Vk tnb tnk accb acck rhb rhk whb whk B0.
+  forall base backup Vb Vk tnb tnk accb acck rhb rhk whb whk hid anc B0,
+  c17_failed_stmt base backup Vb Vk tnb tnk accb acck rhb rhk whb whk hid anc B0.
 Proof.
-  intros base backup Vb Vk tnb tnk accb acck rhb rhk whb whk B0.
+  intros base backup Vb Vk tnb tnk accb acck rhb rhk whb whk hid anc B0.
   unfold c17_failed_stmt.
-  intros HLb HLb2 HLk Hlinks Hsmall HwfB0 w p HI Hnlp Hne Hcur Hfi Hpar0 e w1 ops w2 Hrun Hgood.
-  destruct (c17_specS base backup Vb Vk tnb tnk accb acck rhb rhk whb whk B0
-              HLb HLk Hlinks Hsmall HwfB0 HLb2 w p HI Hnlp Hne Hcur Hfi Hpar0
+  intros HLb HLb2 HLk Hlinks Hsmall HwfB0 Hloc w p HI Hnlp Hne Hcur Hfi Hpar0 e w1 ops w2 Hrun Hgood.
+  destruct (c17_specS base backup Vb Vk tnb tnk accb acck rhb rhk whb whk hid anc B0
+              HLb HLk Hlinks Hsmall HwfB0 HLb2 Hloc w p HI Hnlp Hne Hcur Hfi Hpar0
               (MErr e) w1 ops w2 Hrun Hgood) as (w3 & Hrb & Hp & Hq & Hk & Hi & Hf).
   exists w3. split; [exact Hrb |]. split; [exact Hq |]. split; [exact Hp |].
   split; [| split; [exact Hk | exact Hi]].
